@@ -230,12 +230,23 @@ def check_verdict(case, ctx):
     a_eq, a_in = case["atol_eq"], case["atol_ineq"]
     ctx.label(t, shape, "defect:" + case["defect"]["kind"], "kind:" + obj.get("kind", "generic"))
 
+    # the type's own named sub-verdicts (and the module-level gate functions) answer the same two questions
+    named_eq = {"state": ["is_trace_one"], "povm": ["is_identity_sum"], "gate": ["is_tp"], "mprocess": ["is_sum_tp"]}[t]
+    named_in = {"state": ["is_positive_semidefinite"], "povm": ["is_positive_semidefinite"], "gate": ["is_cp"], "mprocess": ["is_cp"]}[t]
+    named = {}
     if case["via_settings"] and a_eq == a_in:
         Settings.set_atol(float(a_eq))
         try:
             v_eq = q.is_eq_constraint_satisfied()
             v_in = q.is_ineq_constraint_satisfied()
             v_ph = q.is_physical()
+            for nm in named_eq + named_in:
+                named[nm] = getattr(q, nm)()
+            if t == "gate":
+                from quara.objects import gate as _G
+
+                named["gate.is_tp()"] = _G.is_tp(c_sys, q.hs)
+                named["gate.is_cp()"] = _G.is_cp(c_sys, q.hs)
         finally:
             Settings.set_atol(1e-13)
         ctx.label("atol:settings")
@@ -243,7 +254,20 @@ def check_verdict(case, ctx):
         v_eq = q.is_eq_constraint_satisfied(a_eq)
         v_in = q.is_ineq_constraint_satisfied(a_in)
         v_ph = q.is_physical(a_eq, a_in)
+        for nm in named_eq:
+            named[nm] = getattr(q, nm)(a_eq)
+        for nm in named_in:
+            named[nm] = getattr(q, nm)(a_in)
+        if t == "gate":
+            from quara.objects import gate as _G
+
+            named["gate.is_tp()"] = _G.is_tp(c_sys, q.hs, a_eq)
+            named["gate.is_cp()"] = _G.is_cp(c_sys, q.hs, a_in)
         ctx.label("atol:explicit")
+    for nm, v in named.items():
+        want = v_eq if ("tp" in nm or "trace_one" in nm or "identity_sum" in nm) else v_in
+        ctx.check(bool(v) == bool(want), f"named_sub_verdict_equals_generic:{t}",
+                  lambda nm=nm, v=v, want=want: f"{nm} = {v} but the generic sub-verdict is {want} (atol eq={a_eq:.3e} ineq={a_in:.3e}, via_settings={case['via_settings']})")
 
     noise = _tol_noise(d)
     e_eq = expected(eq_lo, eq_hi + noise, a_eq)
@@ -410,9 +434,19 @@ def check_origin_zero(case, ctx):
     # and every verdict is about the zero operator, exactly as for a fresh object built from zeros
     q2 = build.make(c_sys, t, x, m=m, on_para_eq_constraint=flag)
     before = (q2.is_eq_constraint_satisfied(), q2.is_ineq_constraint_satisfied(), q2.is_physical())
+    _representations(q2, t)  # every derived representation has been asked for once before the object is reset
     q2.set_zero()
     ctx.close(build.stacked_of(q2), np.zeros_like(x), 0.0, f"set_zero_value:{t}")
     fresh_zero = build.make(c_sys, t, np.zeros_like(x), m=m, on_para_eq_constraint=flag)
+    reps_used, reps_fresh = _representations(q2, t), _representations(fresh_zero, t)
+    for nm in reps_fresh:
+        a_used, a_fresh = reps_used.get(nm), reps_fresh[nm]
+        same = isinstance(a_used, type(a_fresh)) and (a_used == a_fresh if isinstance(a_fresh, str) else
+                                                      (np.shape(a_used) == np.shape(a_fresh) and np.array_equal(a_used, a_fresh)))
+        ctx.check(same, f"set_zero_representations_equal_fresh_zero_object:{t}",
+                  lambda nm=nm, a_used=a_used, a_fresh=a_fresh: f"{nm} after set_zero: {str(a_used)[:120]} but a fresh zero object gives {str(a_fresh)[:120]}")
+        if not isinstance(a_fresh, str):
+            ctx.check(not np.any(np.asarray(a_used)), f"set_zero_representations_are_zero:{t}", nm)
     for a in (None, 1e-13, 1e-6, 1e-2):
         got = (bool(q2.is_eq_constraint_satisfied(a)), bool(q2.is_ineq_constraint_satisfied(a)), bool(q2.is_physical(a, a)))
         want = (bool(fresh_zero.is_eq_constraint_satisfied(a)), bool(fresh_zero.is_ineq_constraint_satisfied(a)),
@@ -421,6 +455,33 @@ def check_origin_zero(case, ctx):
         # the zero operator is positive semidefinite but violates every equality constraint (trace 0, sum 0, no e0 row)
         ctx.check(got == (False, True, False), f"set_zero_verdicts_are_those_of_the_zero_operator:{t}", f"atol={a}: {got}")
     ctx.nontrivial(case["defect"]["kind"] != "none" or (m or 0) >= 3)
+
+
+def _representations(q, t):
+    """name -> dense array (or 'raises:<type>') of every derived representation of the object."""
+    calls = {
+        "state": {"density": lambda: q.to_density_matrix(), "density_sparse": lambda: q.to_density_matrix_with_sparsity(),
+                  "eigenvalues": lambda: q.calc_eigenvalues(), "var": lambda: q.to_var()},
+        "povm": {"matrices": lambda: q.matrices(), "matrices_sparse": lambda: q.matrices_with_sparsity(),
+                 "eigenvalues": lambda: q.calc_eigenvalues(), "var": lambda: q.to_var()},
+        "gate": {"choi": lambda: q.to_choi_matrix(), "choi_dict": lambda: q.to_choi_matrix_with_dict(),
+                 "choi_sparse": lambda: q.to_choi_matrix_with_sparsity(), "process": lambda: q.to_process_matrix(), "var": lambda: q.to_var()},
+        "mprocess": {"choi0": lambda: q.to_choi_matrix(0), "choi0_dict": lambda: q.to_choi_matrix_with_dict(0),
+                     "choi0_sparse": lambda: q.to_choi_matrix_with_sparsity(0), "process0": lambda: q.to_process_matrix(0),
+                     "var": lambda: q.to_var()},
+    }[t]
+    out = {}
+    for nm, fn in calls.items():
+        try:
+            v = fn()
+            if hasattr(v, "toarray"):
+                v = v.toarray()
+            if isinstance(v, (list, tuple)):
+                v = np.array([np.asarray(e.toarray() if hasattr(e, "toarray") else e) for e in v])
+            out[nm] = np.array(v, copy=True)
+        except Exception as e:  # noqa: the same call on a fresh zero object must then raise alike
+            out[nm] = "raises:" + type(e).__name__
+    return out
 
 
 @st.composite
